@@ -50,14 +50,13 @@ Section ConcatP.
   Proof. unfold concatenate_to_array. rewrite concat_loop_spec. reflexivity. Qed.
 
   Lemma split_loop_cumlens (ls : list (list K)) : forall pre post,
-    length post = 0 \/ True ->
     split_loop (pre ++ concat ls ++ post) (Z.of_nat (length pre) :: cumlens (length pre) ls) = ls.
   Proof.
-    induction ls as [|l r IH]; intros pre post _.
+    induction ls as [|l r IH]; intros pre post.
     - reflexivity.
     - cbn [cumlens concat split_loop]. f_equal.
       + rewrite <- app_assoc. apply py_slice_middle.
-      + specialize (IH (pre ++ l) post (or_intror I)). rewrite app_length in IH.
+      + specialize (IH (pre ++ l) post). rewrite app_length in IH.
         rewrite <- IH at 2. f_equal. rewrite <- !app_assoc. reflexivity.
   Qed.
 
@@ -79,7 +78,7 @@ Section ConcatP.
     rewrite concatenate_spec. destruct (no_none vars); [|discriminate]. intros E. injection E as <- <-.
     unfold split_from_array. change 0%Z with (Z.of_nat 0). rewrite last_cumlens. cbn [Nat.add].
     rewrite Z.eqb_refl. f_equal.
-    pose proof (split_loop_cumlens (map pflat vars) [] [] (or_intror I)) as H. cbn [app length] in H.
+    pose proof (split_loop_cumlens (map pflat vars) [] []) as H. cbn [app length] in H.
     rewrite app_nil_r in H. exact H.
   Qed.
 
@@ -142,7 +141,7 @@ Section ConcatP.
     assert (E : cumlens (length pre) ls = cumlens (length pre) pieces).
     { clear xnew. revert pieces Hl. generalize (length pre) as base. induction ls as [|l r IH]; intros base [|p ps] Hl; try discriminate; [reflexivity|].
       cbn in Hl. injection Hl as H1 H2. cbn [cumlens]. rewrite H1. f_equal. apply IH. exact H2. }
-    rewrite E. pose proof (split_loop_cumlens pieces pre [] (or_intror I)) as H. rewrite app_nil_r in H. exact H.
+    rewrite E. pose proof (split_loop_cumlens pieces pre []) as H. rewrite app_nil_r in H. exact H.
   Qed.
 
   Lemma write_back_split nv (xnew : list K) cum : length cum = S nv ->
